@@ -12,6 +12,7 @@ the same class can be inlined (bounded depth).  No code of the repository is
 executed and no constraint solver is involved.
 """
 import ast
+from .inline import InlineBlock, InlineLeave
 import itertools
 
 from .model import norm
@@ -249,6 +250,13 @@ class Interp:
             for c in cur:
                 out.extend(self.block(s.body, c))
             return out
+        if isinstance(s, InlineBlock):
+            lab = "leave:%s" % getattr(s, "label", "")
+            for r in self.block(s.body, st):
+                out.append(("next", None, r[2], None) if r[0] == lab else r)
+            return out
+        if isinstance(s, InlineLeave):
+            return [("leave:%s" % getattr(s, "label", ""), None, st, s)]
         if isinstance(s, ast.Break):
             return [("break", None, st, s)]
         if isinstance(s, ast.Continue):
@@ -567,8 +575,29 @@ class Interp:
         if isinstance(e, ast.Starred):
             return self.eval(e.value, st)
         if isinstance(e, ast.JoinedStr):
-            parts = [p.value for p in e.values if isinstance(p, ast.FormattedValue)]
-            return [((items if isinstance(items, Exc) else Unknown("fstr")), s) for items, s in self.seq(parts, st)]
+            fvs = [p for p in e.values if isinstance(p, ast.FormattedValue)]
+            parts = [p.value for p in fvs]
+            res = []
+            for items, s in self.seq(parts, st):
+                if isinstance(items, Exc):
+                    res.append((items, s))
+                    continue
+                if all(isinstance(i, Const) for i in items) and all(p.format_spec is None and p.conversion in (-1, 115, 114) for p in fvs):
+                    it = iter(items)
+                    txt = ""
+                    try:
+                        for p in e.values:
+                            if isinstance(p, ast.Constant):
+                                txt += str(p.value)
+                            else:
+                                v = next(it).v
+                                txt += repr(v) if p.conversion == 114 else (str(v) if p.conversion == 115 else format(v, ""))
+                        res.append((Const(txt), s))
+                        continue
+                    except Exception:
+                        pass
+                res.append((Unknown("fstr"), s))
+            return res
         return [(Unknown(type(e).__name__), st)]
 
     def call(self, e, st):
